@@ -1,6 +1,7 @@
 package c13
 
 import (
+	"errors"
 	"fmt"
 	"sort"
 	"strings"
@@ -19,8 +20,15 @@ import (
 
 var vlog []string
 
+// vFailAt: the 1-based invocation of vhook that returns an error (0 = none)
+var vFailAt int
+var errVHook = errors.New("verif: hook refuses")
+
 func vhook(hook, typ, name string, tx *gorm.DB) error {
 	vlog = append(vlog, hook+":"+typ+":"+name)
+	if vFailAt != 0 && len(vlog) == vFailAt {
+		return errVHook
+	}
 	return nil
 }
 
@@ -34,6 +42,12 @@ func vInit() {
 		panic(err)
 	}
 	if err := H.DB.Session(&gorm.Session{SkipHooks: true}).AutoMigrate(&Pal{}); err != nil {
+		panic(err)
+	}
+	if err := H.DB.SetupJoinTable(&JPerson{}, "Addrs", &JPersonAddr{}); err != nil {
+		panic(err)
+	}
+	if err := H.DB.Session(&gorm.Session{SkipHooks: true}).AutoMigrate(&JPerson{}, &JAddr{}, &JPersonAddr{}); err != nil {
 		panic(err)
 	}
 	vReady = true
@@ -293,4 +307,151 @@ func runSharedGraph(c *core.Ctx) {
 		return
 	}
 	c.Shape("shared", n, links)
+}
+
+// ---- a many-to-many relation whose join rows are records of a model with hooks of its own ----------------------
+
+type JPerson struct {
+	ID    int64 `gorm:"primaryKey"`
+	Name  string
+	Addrs []JAddr `gorm:"many2many:j_person_addrs"`
+}
+
+type JAddr struct {
+	ID   int64 `gorm:"primaryKey"`
+	City string
+}
+
+// JPersonAddr is the join model (SetupJoinTable): gorm creates one record of it per link
+type JPersonAddr struct {
+	JPersonID int64 `gorm:"primaryKey"`
+	JAddrID   int64 `gorm:"primaryKey"`
+	Note      string
+}
+
+func (j *JPersonAddr) key() string { return fmt.Sprintf("%d-%d", j.JPersonID, j.JAddrID) }
+func (j *JPersonAddr) BeforeSave(tx *gorm.DB) error {
+	return vhook("BeforeSave", "JPersonAddr", j.key(), tx)
+}
+func (j *JPersonAddr) BeforeCreate(tx *gorm.DB) error {
+	j.Note = "set-by-before-create"
+	return vhook("BeforeCreate", "JPersonAddr", j.key(), tx)
+}
+func (j *JPersonAddr) AfterCreate(tx *gorm.DB) error {
+	return vhook("AfterCreate", "JPersonAddr", j.key(), tx)
+}
+func (j *JPersonAddr) AfterSave(tx *gorm.DB) error {
+	return vhook("AfterSave", "JPersonAddr", j.key(), tx)
+}
+
+var joinOps = []string{"create", "save", "append", "replace", "create-skiphooks"}
+
+// runJoinHooks: every link row gorm creates is a record of the join model: its create hooks fire once per link,
+// what BeforeCreate sets is stored, a refusing hook is returned and the whole operation undone; none under SkipHooks.
+func runJoinHooks(c *core.Ctx, k int) {
+	vInit()
+	op := joinOps[k%len(joinOps)]
+	for _, t := range []string{"j_person_addrs", "j_addrs", "j_people"} {
+		if _, err := H.SQL.Exec("DELETE FROM " + t); err != nil {
+			panic(err)
+		}
+	}
+	n := 1 + c.R.Intn(3)
+	mk := func() *JPerson {
+		p := &JPerson{Name: fmt.Sprintf("p%d", c.Case)}
+		for i := 0; i < n; i++ {
+			p.Addrs = append(p.Addrs, JAddr{City: fmt.Sprintf("c%d_%d", c.Case, i)})
+		}
+		return p
+	}
+	run := func(failAt int) (err error, log []string) {
+		for _, t := range []string{"j_person_addrs", "j_addrs", "j_people"} {
+			H.SQL.Exec("DELETE FROM " + t)
+		}
+		db := H.DB.Session(&gorm.Session{SkipHooks: op == "create-skiphooks"})
+		p := mk()
+		var owner *JPerson
+		if op == "append" || op == "replace" {
+			owner = &JPerson{ID: 1, Name: "owner"}
+			if _, e := H.SQL.Exec("INSERT INTO j_people(id,name) VALUES (1,'owner')"); e != nil {
+				panic(e)
+			}
+		}
+		vlog, vFailAt = nil, failAt
+		switch op {
+		case "create", "create-skiphooks":
+			err = db.Create(p).Error
+		case "save":
+			err = db.Save(p).Error
+		case "append":
+			err = db.Model(owner).Association("Addrs").Append(p.Addrs)
+		case "replace":
+			err = db.Model(owner).Association("Addrs").Replace(p.Addrs)
+		}
+		log, vlog, vFailAt = vlog, nil, 0
+		return
+	}
+	desc := fmt.Sprintf("%s of a person with %d new addresses through a many-to-many relation whose join model has hooks", op, n)
+	err, log := run(0)
+	c.Inc("join_model_hook_runs")
+	var problems []string
+	if err != nil {
+		problems = append(problems, "error: "+err.Error())
+	}
+	count := map[string]int{}
+	for _, e := range log {
+		count[strings.SplitN(e, ":", 2)[0]+":"+strings.SplitN(e, ":", 3)[1]]++
+	}
+	links := vdbInts("SELECT count(*) FROM j_person_addrs")
+	if links != int64(n) {
+		problems = append(problems, fmt.Sprintf("%d link rows stored, want %d", links, n))
+	}
+	for _, h := range []string{"BeforeSave", "BeforeCreate", "AfterCreate", "AfterSave"} {
+		want := n
+		if op == "create-skiphooks" {
+			want = 0
+		}
+		if got := count[h+":JPersonAddr"]; got != want {
+			problems = append(problems, fmt.Sprintf("%s of the join model fired %d times for %d link records", h, got, n))
+		}
+	}
+	if op != "create-skiphooks" {
+		if bad := vdbInts("SELECT count(*) FROM j_person_addrs WHERE note <> 'set-by-before-create' OR note IS NULL"); bad != 0 {
+			problems = append(problems, fmt.Sprintf("%d link rows do not hold the value BeforeCreate set", bad))
+		}
+	}
+	if len(problems) > 0 {
+		c.Violation("join-model-hooks/"+op, map[string]interface{}{"op": desc, "problems": problems, "hooks": strings.Join(log, " ")})
+		return
+	}
+	// every invocation refuses once (create / save: one unit with the owner)
+	if op == "create" || op == "save" {
+		for j := 1; j <= len(log); j++ {
+			ferr, flog := run(j)
+			c.Inc("faulted_runs")
+			var p []string
+			if !errors.Is(ferr, errVHook) {
+				p = append(p, fmt.Sprintf("invocation %d (%s) refused, the operation returned %v", j, log[j-1], ferr))
+			}
+			if left := vdbInts("SELECT (SELECT count(*) FROM j_people) + (SELECT count(*) FROM j_addrs) + (SELECT count(*) FROM j_person_addrs)"); left != 0 {
+				p = append(p, fmt.Sprintf("invocation %d (%s) refused, %d rows of the operation stayed", j, log[j-1], left))
+			}
+			if len(flog) > len(log) {
+				p = append(p, "more hooks fired than in the run without a failure")
+			}
+			if len(p) > 0 {
+				c.Violation("join-model-hooks-fail/"+op, map[string]interface{}{"op": desc, "failed_invocation": j, "problems": p})
+				break
+			}
+		}
+	}
+	c.Shape("joinhooks", op, n)
+}
+
+func vdbInts(q string) int64 {
+	var n int64
+	if err := H.SQL.QueryRow(q).Scan(&n); err != nil {
+		panic(err)
+	}
+	return n
 }
